@@ -188,6 +188,8 @@ CastAll(s, ty) == [i \in 1..Len(s) |-> CastV(s[i], ty)]
 \*  <<"offset", e, k>>          SELECT e OFFSET k
 \*  <<"isect", e, T>>           e [IS T]
 \*  <<"cast", k, e>>            <k>e  (numeric)
+\*  <<"rng", k>>                range(<k>1, <k>10)
+\*  <<"rcast", k, e>>           <range<k>>e
 \*  <<"union", a, b>> <<"coal", a, b>> <<"tup", a, b>> <<"plus", a, b>>
 \*  <<"eq", a, b>> <<"opteq", a, b>> <<"in", a, b>>
 \*  <<"if", c, a, b>>           a IF c ELSE b
@@ -225,6 +227,9 @@ TypeOf(t, vt) ==
                         THEN TObj(t[3]) ELSE None
     [] op = "cast"   -> LET a == TypeOf(t[3], vt) IN
                         IF IsNum(a) THEN Sc(t[2]) ELSE None
+    [] op = "rng"    -> <<"range", t[2]>>
+    [] op = "rcast"  -> LET a == TypeOf(t[3], vt) IN
+                        IF a[1] = "range" THEN <<"range", t[2]>> ELSE None
     [] op \in {"union", "coal"} -> Join(TypeOf(t[2], vt), TypeOf(t[3], vt))
     [] op = "tup"    -> LET a == TypeOf(t[2], vt)  b == TypeOf(t[3], vt) IN
                         IF a = None \/ b = None THEN None ELSE TTup(a, b)
@@ -278,6 +283,9 @@ Eval(t, env, db) ==
     [] op = "isect"  -> SelectSeq(Eval(t[2], env, db),
                                   LAMBDA v : IsSub(db[v[2]].ty, t[3]))
     [] op = "cast"   -> CastAll(Eval(t[3], env, db), Sc(t[2]))
+    [] op = "rng"    -> << <<"r", t[2], 2, 20>> >>
+    [] op = "rcast"  -> LET s == Eval(t[3], env, db) IN
+                        [i \in 1..Len(s) |-> <<"r", t[2], s[i][3], s[i][4]>>]
     \* operands of mixed numeric kinds are implicitly cast to the join
     [] op = "union"  -> LET ty == TypeOf(t, env.ty) IN
                         CastAll(Eval(t[2], env, db), ty) \o CastAll(Eval(t[3], env, db), ty)
@@ -320,6 +328,7 @@ RootB  == <<"root", "B">>
 NumLeaf(k) == <<"lit", <<Num(k, 2)>>, Sc(k)>>
 NumLeaves == {NumLeaf(k) : k \in NumKinds \ {"int64"}}
 
+RangeKinds == {"int32", "int64", "float32", "float64", "decimal"}
 Leaves == {Ints1, Ints12, Ints11, Ints0, Flt, StrX, RootA, RootA3, RootB}
 SmallLeaves == {Ints1, Ints12, Ints0, RootA, RootB}
 
@@ -355,7 +364,9 @@ U1 == WellTyped(Unary(U0) \cup Binary(U0, U0) \cup Fors(U0)
                 \* modes are not part of this fragment)
                 \cup {<<"cast", k, Ints1>> : k \in NumKinds}
                 \cup {<<"cast", k, Flt>> : k \in {"float32", "float64", "decimal"}}
-                \cup Binary(NumLeaves \cup {Ints1, Flt}, NumLeaves))
+                \cup Binary(NumLeaves \cup {Ints1, Flt}, NumLeaves)
+                \cup {<<"rng", k>> : k \in RangeKinds}
+                \cup {<<"rcast", k2, <<"rng", k>>>> : k \in RangeKinds, k2 \in RangeKinds})
 U1core == {t \in U1 : t[1] \notin {"cast"} /\ (t[1] \notin {"plus", "eq", "opteq", "in", "union", "coal", "tup"}
                                               \/ (t[2] \in Leaves /\ t[3] \in Leaves))}
 \* (operators with a parameter: TLC evaluates parameterless constant definitions
@@ -423,6 +434,7 @@ HasType(v, ty) ==
       [] v[1] = "o" -> IsObjT(ty)
       [] v[1] = "t" -> ty[1] = "tuple" /\ HasType(v[2][1], ty[2]) /\ HasType(v[2][2], ty[3])
       [] v[1] = "a" -> ty[1] = "array" /\ \A i \in 1..Len(v[2]) : HasType(v[2][i], ty[2])
+      [] v[1] = "r" -> ty = <<"range", v[2]>>
       [] OTHER -> FALSE
 
 (* model-level laws, checked by TLC for every term on every database:      *)
